@@ -87,3 +87,19 @@ Theorem C09_stalechan_refuted :
   /\ stuck F_stale (do_action F_stale s1 AStop) 1 = true /\ exited s2 1 = false.
 Proof. exact stalechan_refuted. Qed.
 Print Assumptions C09_stalechan_refuted.
+
+(** Not the gate but what the cancellation sets off (region "literal-slot"): the frame slot of a
+    function literal is set back to its earlier content whenever a call of the literal returns;
+    after a cancellation all calls return at once, and a [go func(){...}()] statement in flight can
+    find the nil function in the slot: the new goroutine panics and the host process dies. *)
+Theorem C09_literal_slot_refuted :
+  crashed (slot_run slot_witness) = true
+  /\ started (slot_run [SLit 1; SGo; SLit 2; SGo; SLit 3; SGo]) = [3; 2; 1].
+Proof. exact literal_slot_refuted. Qed.
+Print Assumptions C09_literal_slot_refuted.
+
+Theorem C09_literal_slot_adjacent :
+  forall l g, crashed (slot_run l) = false ->
+    let s := slot_run (l ++ [SLit g; SGo]) in crashed s = false /\ hd_error (started s) = Some g.
+Proof. exact literal_slot_adjacent. Qed.
+Print Assumptions C09_literal_slot_adjacent.
